@@ -5,11 +5,8 @@ CONSTANT InitTombs = {FALSE}
 CONSTANT Modes = {FALSE}
 CONSTANT Kinds = {"put", "push", "del"}
 SPECIFICATION PSpec
-CONSTRAINT Progress
-POSTCONDITION Accept
+CONSTRAINT PProgress
+POSTCONDITION PAccept
 CHECK_DEADLOCK FALSE
-INVARIANT NoLostAck
-INVARIANT OwnSequence
-INVARIANT OneChildPerParent
-INVARIANT LosersLeaveNoTrace
-INVARIANT FeedAnnouncesFinal
+\* The property predicates NoLostAck, OwnSequence, OneChildPerParent, LosersLeaveNoTrace, RefusalsAreConflicts,
+\* FeedAnnouncesFinal are evaluated on every recorded state by PProgress (collected, not stop-on-first) - see Trace_DocUpdate.tla
